@@ -1,5 +1,5 @@
-(* C11 - the reader. Only statements; proofs in Data/ReaderProofs.v. *)
-From PL Require Import Data.Reader Data.ReaderProofs.
+(* C11 - the reader. Only statements; proofs in Data/ReaderProofs.v, Data/PositionProofs.v. *)
+From PL Require Import Data.Reader Data.ReaderProofs Data.PositionProofs.
 From Coq Require Import String.
 Local Open Scope string_scope.
 Local Open Scope list_scope.
@@ -38,3 +38,25 @@ Proof.
   split; [exact nested_quote_collapses|]. split; [exact quote_before_close_quotes_the_list|exact percent_before_blank_is_dropped].
 Qed.
 Print Assumptions C11_known_deviations.
+
+(* positions are exact, for EVERY text, start position and tokenizer state: the rest reported with a token is a
+   suffix of the input and the position reported is the start advanced over exactly the characters consumed
+   (newline: next line, column 0; any other character: next column) *)
+Theorem C11_token_positions_exact : forall inp inv st buf bl cur t, tok inp inv st buf bl cur = Some (inl t) ->
+  exists consumed, inp = consumed ++ trest t /\ tcur t = advance cur consumed /\ consumed <> [].
+Proof. exact tok_position. Qed.
+Print Assumptions C11_token_positions_exact.
+
+(* an error of the tokenizer is located at the offending character; line/column handed on are that location, 1-based column *)
+Theorem C11_error_positions_exact : forall inp inv st buf bl cur m l rest a b,
+  tok inp inv st buf bl cur = Some (inr (EError m l rest a b)) ->
+  exists consumed, inp = consumed ++ rest /\ l = advance cur consumed /\ consumed <> [] /\
+                   (let '(Loc x y) := l in a = x /\ b = y + 1).
+Proof. exact tok_error_position. Qed.
+Print Assumptions C11_error_positions_exact.
+
+(* a successful read consumed a non-empty prefix, returns exactly the remaining suffix, and the final position is exact *)
+Theorem C11_read_positions_exact : forall src inp inv line col v rest l, read_text src inp inv line col = inl (v, rest, l) ->
+  exists consumed, inp = consumed ++ rest /\ l = advance (Loc line (col - 1)) consumed /\ consumed <> [].
+Proof. exact read_text_position. Qed.
+Print Assumptions C11_read_positions_exact.
